@@ -27,4 +27,9 @@ theorem c_noarb_hook_on_completed_op :
 example : ∃ s, Reach (sys cfgNoArb) s ∧ (final cfgNoArb s && decide (s.doneWins = 1) && decide (s.tcTrue = 1)) = true :=
   reach_of_choices _ [0, 0, 0, 0, 0, 0, 1, 1, 1, 1, 1, 1, 1, 1, 1, 1, 1, 1, 0, 0, 0, 0] _ (by decide +kernel)
 
+/-- in every schedule the stop() hook is only called for an operation whose completion nobody has
+    claimed (the deciding atomic operation observed `state_` without the `completed` bit) -/
+theorem c_noarb_stop_hook_only_unclaimed : ∀ s, Reach (sys cfgNoArb) s → s.hookLate = false :=
+  stop_hook_only_unclaimed cfgNoArb c_noarb_core
+
 end Unifex.Props.C19.Cancellable
